@@ -1,6 +1,7 @@
 ################################################################################
 # © Copyright 2021-2022 Zapata Computing Inc.
 ################################################################################
+import os
 import json
 from typing import Dict, List, TextIO, Tuple
 
@@ -52,7 +53,7 @@ def load_circuit_layers(file: TextIO) -> CircuitLayers:
         (circuit.CircuitLayers)
     """
 
-    if isinstance(file, str):
+    if isinstance(file, (str, bytes, os.PathLike)):
         with open(file, "r") as f:
             data = json.load(f)
     else:
@@ -82,7 +83,7 @@ def load_circuit_ordering(file):
         ordering (list)
     """
 
-    if isinstance(file, str):
+    if isinstance(file, (str, bytes, os.PathLike)):
         with open(file, "r") as f:
             data = json.load(f)
     else:
@@ -134,7 +135,7 @@ def load_circuit_connectivity(file):
         (orquestra.quantum.circuit.CircuitConnectivity)
     """
 
-    if isinstance(file, str):
+    if isinstance(file, (str, bytes, os.PathLike)):
         with open(file, "r") as f:
             data = json.load(f)
     else:
